@@ -195,4 +195,27 @@ def aggregateF (g : Agg) (how : How) (m : Option Dir) (ch : ColHow) (fs : List R
                      g.at (gs.map fun f => ((colOf f c).bind fun col => col[k]?).join)) }
   | _, _ => Option.none
 
+/-- the frames among the operands of an aggregate -/
+def framesOfX (xs : List FOperand) : List RFrame :=
+  xs.filterMap fun x => match x with | .df f => some f | _ => Option.none
+
+/-- `df_sum / df_mean / df_count` over frames with several columns each AND scalars (`df_sum([f, 5.0, g])`): index and
+columns come from the frames alone, a scalar counts in every cell (`sum` broadcasts it, `~_mask(5.0)` is the bool `True`
+added to every count), a NaN scalar in none.  Series operands are not covered here (known finding C08-A1). -/
+def aggregateFS (g : Agg) (how : How) (m : Option Dir) (ch : ColHow) (xs : List FOperand) : Option RFrame :=
+  let fs := framesOfX xs
+  match joinIndex how (fs.map (·.idx)), fs.map (·.names) with
+  | some ix, c :: cs =>
+    let cols := colsJoin ch c cs
+    let ys := xs.map fun x => match x with
+      | .df f => FOperand.df (recolumnF cols (reindexF f ix m))
+      | y => y
+    some { idx := ix,
+           cols := cols.map fun c => (c, (List.range ix.length).map fun k =>
+                     g.at (ys.map fun y => match y with
+                       | .df f => ((colOf f c).bind fun col => col[k]?).join
+                       | .num q => q
+                       | .ts _ => Option.none)) }
+  | _, _ => Option.none
+
 end Pyg.Ops
